@@ -330,3 +330,249 @@ theorem operate_nil2 (op : String) (a b : Units) :
   cases dispatch op [merge [] a 1, merge [] b 1] <;> rfl
 
 end QExPy.U
+
+namespace QExPy.U
+
+/-- Σ p.2 * D p.1 t -/
+def sumD (D : Sym → Sym → Rat) (u : Units) (t : Sym) : Rat :=
+  sumRat (u.map fun (p : Sym × Rat) => p.2 * D p.1 t)
+
+theorem sumD_nil (D : Sym → Sym → Rat) (t : Sym) : sumD D [] t = 0 := rfl
+
+theorem sumD_cons (D : Sym → Sym → Rat) (k : Sym) (e : Rat) (r : Units) (t : Sym) :
+    sumD D ((k, e) :: r) t = e * D k t + sumD D r t := rfl
+
+/-- `D` satisfies the unfolding equations of the definitions -/
+def Unfolds (defs : Defs) (D : Sym → Sym → Rat) : Prop :=
+  (∀ s, lookupDef defs s = none → ∀ t, D s t = if s = t then 1 else 0) ∧
+  (∀ s d, lookupDef defs s = some d → ∀ t, D s t = sumD D d t)
+
+/-- `rank` is positive on defined names and decreases along definitions -/
+def Ranked (defs : Defs) (rank : Sym → Nat) : Prop :=
+  ∀ s d, lookupDef defs s = some d → 1 ≤ rank s ∧ ∀ p ∈ d, rank p.1 < rank s
+
+theorem keys_merge_subset (acc v : Units) (sg : Rat) :
+    ∀ k ∈ (merge acc v sg).map Prod.fst, k ∈ acc.map Prod.fst ∨ k ∈ v.map Prod.fst := by
+  induction v generalizing acc with
+  | nil => intro k hk; exact Or.inl (by simpa [merge] using hk)
+  | cons q r ih =>
+    obtain ⟨k', e'⟩ := q
+    intro k hk
+    simp only [merge] at hk
+    rcases ih _ k hk with h | h
+    · rw [keys_upd] at h
+      split at h
+      · exact Or.inl h
+      · rcases List.mem_append.mp h with h | h
+        · exact Or.inl h
+        · simp at h; subst h; exact Or.inr (by simp)
+    · exact Or.inr (by simp [h])
+
+theorem unpackD_sound (defs : Defs) (D : Sym → Sym → Rat) (rank : Sym → Nat)
+    (hD : Unfolds defs D) (hR : Ranked defs rank) :
+    ∀ (f : Nat) (u : Units) (c : Rat), (∀ p ∈ u, rank p.1 ≤ f) →
+      ∃ r, unpackD defs (f + 1) u c = some r ∧ WF r ∧ (∀ t, expOf r t = c * sumD D u t) ∧
+        ∀ k ∈ r.map Prod.fst, lookupDef defs k = none := by
+  intro f
+  induction f using Nat.strongRecOn with
+  | _ f ih =>
+    intro u c hu
+    -- the fold, with a general accumulator
+    have hfold : ∀ (u : Units) (acc : Units), (∀ p ∈ u, rank p.1 ≤ f) → WF acc →
+        (∀ k ∈ acc.map Prod.fst, lookupDef defs k = none) →
+        ∃ r, u.foldlM (fun acc (p : Sym × Rat) =>
+            match lookupDef defs p.1 with
+            | none => some (upd acc p.1 (p.2 * c))
+            | some d => (unpackD defs f d (p.2 * c)).map fun un => merge acc un 1) acc = some r ∧
+          WF r ∧ (∀ t, expOf r t = expOf acc t + c * sumD D u t) ∧
+          ∀ k ∈ r.map Prod.fst, lookupDef defs k = none := by
+      intro u
+      induction u with
+      | nil =>
+        intro acc _ hw hn
+        exact ⟨acc, rfl, hw, fun t => by simp [sumD_nil, Rat.mul_zero, Rat.add_zero], hn⟩
+      | cons p r ihu =>
+        obtain ⟨name, e⟩ := p
+        intro acc hu hw hn
+        have hur : ∀ p ∈ r, rank p.1 ≤ f := fun p hp => hu p (List.mem_cons_of_mem _ hp)
+        simp only [List.foldlM_cons]
+        cases hl : lookupDef defs name with
+        | none =>
+          simp only [Option.bind_eq_bind, Option.bind]
+          have hn' : ∀ k ∈ (upd acc name (e * c)).map Prod.fst, lookupDef defs k = none := by
+            intro k hk
+            rw [keys_upd] at hk
+            split at hk
+            · exact hn k hk
+            · rcases List.mem_append.mp hk with hk | hk
+              · exact hn k hk
+              · simp at hk; subst hk; exact hl
+          obtain ⟨r', h1, h2, h3, h4⟩ := ihu (upd acc name (e * c)) hur (WF_upd _ _ _ hw) hn'
+          refine ⟨r', h1, h2, fun t => ?_, h4⟩
+          rw [h3 t, expOf_upd, sumD_cons, hD.1 name hl t]
+          by_cases hnt : name = t <;> simp [hnt] <;> grind
+        | some d =>
+          have hrk := hR name d hl
+          have hname : rank name ≤ f := hu (name, e) (by simp)
+          obtain ⟨f', hf'⟩ : ∃ f', f = f' + 1 := ⟨f - 1, by omega⟩
+          subst hf'
+          have hd : ∀ p ∈ d, rank p.1 ≤ f' := fun p hp => by
+            have := hrk.2 p hp; omega
+          obtain ⟨un, g1, g2, g3, g4⟩ := ih f' (by omega) d (e * c) hd
+          simp only [g1, Option.map_some, Option.bind_eq_bind, Option.bind]
+          have hn' : ∀ k ∈ (merge acc un 1).map Prod.fst, lookupDef defs k = none := by
+            intro k hk
+            rcases keys_merge_subset acc un 1 k hk with h | h
+            · exact hn k h
+            · exact g4 k h
+          obtain ⟨r', h1, h2, h3, h4⟩ := ihu (merge acc un 1) hur (WF_merge _ _ _ hw) hn'
+          refine ⟨r', h1, h2, fun t => ?_, h4⟩
+          rw [h3 t, expOf_merge _ _ _ _ g2, g3 t, sumD_cons, hD.2 name d hl t]
+          grind
+    obtain ⟨r, h1, h2, h3, h4⟩ := hfold u [] hu WF_nil (by simp)
+    refine ⟨r, ?_, h2, fun t => ?_, h4⟩
+    · rw [unpackD]; exact h1
+    · rw [h3 t]; simp [expOf_nil, Rat.zero_add]
+
+end QExPy.U
+
+namespace QExPy.U
+
+/-- definitions, latest first: no definition mentions its own name or a name defined later,
+    names are unique -/
+def OrderedR : Defs → Prop
+  | [] => True
+  | (n, d) :: older =>
+    (∀ p ∈ d, p.1 ≠ n) ∧ (∀ q ∈ older, q.1 ≠ n ∧ ∀ p ∈ q.2, p.1 ≠ n) ∧ OrderedR older
+
+def rankR : Defs → Sym → Nat
+  | [], _ => 0
+  | (n, _) :: older, s => if s = n then older.length + 1 else rankR older s
+
+theorem rankR_le (rdefs : Defs) (s : Sym) : rankR rdefs s ≤ rdefs.length := by
+  induction rdefs with
+  | nil => simp [rankR]
+  | cons q older ih =>
+    obtain ⟨n, d⟩ := q
+    simp only [rankR, List.length_cons]
+    split <;> omega
+
+theorem lookupDef_append (xs : Defs) (n : Sym) (d : Units) (s : Sym) :
+    lookupDef (xs ++ [(n, d)]) s =
+      match lookupDef xs s with
+      | some x => some x
+      | none => if n = s then some d else none := by
+  induction xs with
+  | nil => simp [lookupDef]
+  | cons q r ih =>
+    obtain ⟨n', d'⟩ := q
+    simp only [List.cons_append, lookupDef]
+    split
+    · rfl
+    · exact ih
+
+theorem lookupDef_none_of_names (xs : Defs) (n : Sym) (h : ∀ q ∈ xs, q.1 ≠ n) :
+    lookupDef xs n = none := by
+  induction xs with
+  | nil => rfl
+  | cons q r ih =>
+    obtain ⟨n', d'⟩ := q
+    have h1 : n' ≠ n := h (n', d') (by simp)
+    simp only [lookupDef, h1, if_false]
+    exact ih fun q hq => h q (List.mem_cons_of_mem _ hq)
+
+theorem mem_of_lookupDef (xs : Defs) (s : Sym) (d : Units) (h : lookupDef xs s = some d) :
+    (s, d) ∈ xs := by
+  induction xs with
+  | nil => cases h
+  | cons q r ih =>
+    obtain ⟨n', d'⟩ := q
+    simp only [lookupDef] at h
+    split at h
+    · rename_i hn; cases h; subst hn; simp
+    · exact List.mem_cons_of_mem _ (ih h)
+
+theorem lookupDef_reverse (rdefs : Defs) (h : OrderedR rdefs) (s : Sym) :
+    lookupDef rdefs.reverse s = lookupDef rdefs s := by
+  induction rdefs with
+  | nil => rfl
+  | cons q older ih =>
+    obtain ⟨n, d⟩ := q
+    obtain ⟨_, h2, h3⟩ := h
+    rw [List.reverse_cons, lookupDef_append, ih h3]
+    simp only [lookupDef]
+    by_cases hns : n = s
+    · subst hns
+      rw [lookupDef_none_of_names older n fun q hq => (h2 q hq).1]
+    · simp only [hns, if_false]
+      cases lookupDef older s <;> rfl
+
+theorem sumD_congr (D D' : Sym → Sym → Rat) (d : Units) (t : Sym)
+    (h : ∀ p ∈ d, D p.1 t = D' p.1 t) : sumD D d t = sumD D' d t := by
+  induction d with
+  | nil => rfl
+  | cons p r ih =>
+    obtain ⟨k, e⟩ := p
+    rw [sumD_cons, sumD_cons, h (k, e) (by simp), ih fun p hp => h p (List.mem_cons_of_mem _ hp)]
+
+theorem dimSym_cons_ne (n : Sym) (d : Units) (older : Defs) (s t : Sym) (h : s ≠ n) :
+    dimSym ((n, d) :: older) s t = dimSym older s t := by
+  simp [dimSym, h]
+
+theorem unfolds_dimSym (rdefs : Defs) (h : OrderedR rdefs) :
+    (∀ s, lookupDef rdefs s = none → ∀ t, dimSym rdefs s t = if s = t then 1 else 0) ∧
+    (∀ s d, lookupDef rdefs s = some d → ∀ t, dimSym rdefs s t = sumD (dimSym rdefs) d t) := by
+  induction rdefs with
+  | nil => exact ⟨fun s _ t => rfl, fun s d hd => by cases hd⟩
+  | cons q older ih =>
+    obtain ⟨n, d⟩ := q
+    obtain ⟨h1, h2, h3⟩ := h
+    obtain ⟨i1, i2⟩ := ih h3
+    constructor
+    · intro s hs t
+      simp only [lookupDef] at hs
+      split at hs
+      · cases hs
+      · rename_i hns
+        rw [dimSym_cons_ne n d older s t (fun e => hns e.symm)]
+        exact i1 s hs t
+    · intro s d' hs t
+      simp only [lookupDef] at hs
+      split at hs
+      · rename_i hns
+        cases hs; subst hns
+        have : dimSym ((n, d) :: older) n t = sumD (dimSym older) d t := by
+          simp [dimSym, sumD]
+        rw [this]
+        exact sumD_congr _ _ _ _ fun p hp => (dimSym_cons_ne n d older p.1 t (h1 p hp)).symm
+      · rename_i hns
+        rw [dimSym_cons_ne n d older s t (fun e => hns e.symm), i2 s d' hs t]
+        have hmem := mem_of_lookupDef older s d' hs
+        exact sumD_congr _ _ _ _ fun p hp =>
+          (dimSym_cons_ne n d older p.1 t ((h2 (s, d') hmem).2 p hp)).symm
+
+theorem ranked_rankR (rdefs : Defs) (h : OrderedR rdefs) :
+    ∀ s d, lookupDef rdefs s = some d → 1 ≤ rankR rdefs s ∧ ∀ p ∈ d, rankR rdefs p.1 < rankR rdefs s := by
+  induction rdefs with
+  | nil => intro s d hd; cases hd
+  | cons q older ih =>
+    obtain ⟨n, d⟩ := q
+    obtain ⟨h1, h2, h3⟩ := h
+    intro s d' hs
+    simp only [lookupDef] at hs
+    split at hs
+    · rename_i hns
+      cases hs; subst hns
+      refine ⟨by simp [rankR], fun p hp => ?_⟩
+      have := rankR_le older p.1
+      simp only [rankR, h1 p hp, if_false, if_true]
+      omega
+    · rename_i hns
+      have hsn : s ≠ n := fun e => hns e.symm
+      obtain ⟨j1, j2⟩ := ih h3 s d' hs
+      have hmem := mem_of_lookupDef older s d' hs
+      refine ⟨by simpa [rankR, hsn] using j1, fun p hp => ?_⟩
+      have hpn := (h2 (s, d') hmem).2 p hp
+      simpa [rankR, hsn, hpn] using j2 p hp
+
+end QExPy.U
